@@ -29,6 +29,10 @@ var c02Progs = []c02Prog{
 	{"IxWy", []string{"x"}, "iter", []string{"y"}},
 	{"SxWy", []string{"x"}, "seek", []string{"y"}},
 	{"RyWy", []string{"y"}, "get", []string{"y"}},
+	{"Wy", nil, "get", []string{"y"}},
+	// key-only iteration over all keys: more items than the (2-item) prefetch window, so recycled
+	// Item structs are exercised
+	{"KallWz", []string{"a", "x", "y"}, "keyiter", []string{"z"}},
 }
 
 type c02Txn struct {
@@ -58,7 +62,23 @@ func c02Thread(x *schedExec, name string, p c02Prog, beginPoints int) sched.Thre
 		rec.BeginAt = st.h.tick()
 		txn := x.db.NewTransaction(true)
 		rec.ReadTs = txn.ReadTs()
+		if p.How == "keyiter" {
+			x.s.Point("op")
+			o := DefaultIteratorOptions
+			o.PrefetchValues = false
+			it := txn.NewIterator(o)
+			for it.Rewind(); it.Valid(); it.Next() {
+				item := it.Item()
+				v, _ := item.ValueCopy(nil)
+				rec.Reads[string(item.Key())] = string(v)
+			}
+			it.Close()
+			delete(rec.Reads, "z")
+		}
 		for _, k := range p.Reads {
+			if p.How == "keyiter" {
+				break
+			}
 			x.s.Point("op")
 			switch p.How {
 			case "get":
@@ -198,7 +218,7 @@ func c02Check(x *schedExec) (string, string, string) {
 		}
 	}
 	sort.Slice(committed, func(i, j int) bool { return committed[i].CommitTs < committed[j].CommitTs })
-	model := map[string]string{"x": "init", "y": "init"}
+	model := map[string]string{"a": "init", "x": "init", "y": "init"}
 	for _, t := range committed {
 		for k, v := range t.Reads {
 			if model[k] != v {
@@ -233,6 +253,7 @@ func c02Scenario(name string, progs func(j int) []c02Prog) *schedScenario {
 				panic("fingerprint collision")
 			}
 			if err := x.db.Update(func(txn *Txn) error {
+				_ = txn.Set([]byte("a"), []byte("init"))
 				_ = txn.Set([]byte("x"), []byte("init"))
 				return txn.Set([]byte("y"), []byte("init"))
 			}); err != nil {
